@@ -104,6 +104,7 @@ type Gen struct {
 	atoms    map[string]string // macro name -> constant equal to it (for patterns)
 	msgUniSeed []types.Type    // message types that received a type tag in the previous pass
 	msgUni   []types.Type      // message types mentioned by the package under verification (msgmodel.go)
+	constClosure map[ssa.Value]*closureInfo // write-once cells holding a known closure
 	constVal map[ssa.Value]Val // write-once local variable cells (see constcell.go): their content as a value
 }
 
